@@ -64,6 +64,27 @@ enum Observed {
     Error { phase: &'static str, err: tera::Error },
 }
 
+thread_local! {
+    /// Set by the family `render-faults-after-refused-readd`.
+    static AFTER_REFUSED_READD: std::cell::Cell<bool> = const { std::cell::Cell::new(false) };
+}
+
+thread_local! {
+    /// (refused after parsing, refused by the parser, not refused) re-registrations
+    static READD_STATS: std::cell::Cell<(u64, u64, u64)> = const { std::cell::Cell::new((0, 0, 0)) };
+}
+
+/// The same template with everything (after a leading `{% extends %}` tag) moved down three lines.
+fn moved_down(src: &str) -> String {
+    let pad = "\n\n\n{# moved #}  ";
+    if src.trim_start().starts_with("{% extends")
+        && let Some(end) = src.find("%}")
+    {
+        return format!("{}{pad}{}", &src[..end + 2], &src[end + 2..]);
+    }
+    format!("{pad}{src}")
+}
+
 fn execute(p: &Planted, render: bool, ctx: &tera::Context) -> Observed {
     execute_with(p, render, ctx, None)
 }
@@ -83,6 +104,32 @@ fn execute_with(p: &Planted, render: bool, ctx: &tera::Context, delims: Option<t
     }
     if !render {
         return Observed::NoError;
+    }
+    if AFTER_REFUSED_READD.with(|c| c.get()) {
+        // Every template is offered again with its text moved down three lines, in one batch with a
+        // template that uses an unknown filter: the batch is refused at validation time (after
+        // parsing and compiling), and nothing of it may show in a later report.
+        let mut batch: Vec<(String, String)> = p.templates.iter().map(|(n, s)| (n.clone(), moved_down(s))).collect();
+        batch.push(("zz-refused".to_string(), "{{ 1 | zz_no_such_filter }}".to_string()));
+        match engine::guarded(|| tera.add_raw_templates(batch.iter().map(|(a, b)| (a.as_str(), b.as_str())))) {
+            Ok(Err(e)) => READD_STATS.with(|c| {
+                let mut v = c.get();
+                if matches!(e.kind(), ErrorKind::SyntaxError(_)) { v.1 += 1 } else { v.0 += 1 }
+                c.set(v);
+            }),
+            // not this check's business (C07 / C10 judge acceptance): fall back to the plain case
+            _ => return AFTER_REFUSED_READD.with(|c| {
+                READD_STATS.with(|c| {
+                    let mut v = c.get();
+                    v.2 += 1;
+                    c.set(v);
+                });
+                c.set(false);
+                let o = execute_with(p, render, ctx, None);
+                c.set(true);
+                o
+            }),
+        }
     }
     match engine::guarded(|| tera.render(p.entry, ctx)) {
         Err(msg) => Observed::Panic { phase: "render", msg },
@@ -121,6 +168,11 @@ impl CaseInfo<'_> {
             "templates": self.planted.templates.iter().map(|(n, s)| json!({"name": n, "source": s})).collect::<Vec<_>>(),
             "render": self.planted.entry,
             "context": CONTEXT_DESCRIPTION,
+            "history": if AFTER_REFUSED_READD.with(|c| c.get()) {
+                "registered; then add_raw_templates(every template moved down three lines + a template using an unknown filter) was refused; then rendered"
+            } else {
+                "registered, then rendered"
+            },
             "fault_template": self.planted.file,
             "snippet_bytes": [self.snippet.start, self.snippet.end],
             "snippet": &src[self.snippet.clone()],
@@ -835,6 +887,52 @@ fn main() {
                 }
             },
         );
+    }
+
+    // ------------------------------------------------ rendering faults after a refused re-registration
+    {
+        let items: Vec<(usize, usize)> = faults
+            .iter()
+            .enumerate()
+            .filter(|(_, f)| f.class == Class::Render)
+            .flat_map(|(i, f)| (0..SITES.len()).filter(move |s| f.sites & (1 << s) != 0).map(move |s| (i, s)))
+            .collect();
+        const READD_PADS: [usize; 2] = [0, 4];
+        run.family(
+            Family::new(
+                "render-faults-after-refused-readd",
+                items.len() as u64,
+                &format!(
+                    "{} rendering faults x every applicable site x {} paddings, rendered after a refused add_raw_templates call that offered every template again with its text moved down three lines (plus a template using an unknown filter): the report must still describe the registered sources",
+                    n_of(Class::Render),
+                    READD_PADS.len()
+                ),
+            )
+            .describe(|i| {
+                let (fi, s) = items[i as usize];
+                json!({"fault": faults[fi].id, "site": SITES[s], "snippet": faults[fi].text, "history": "after a refused re-registration"})
+            }),
+            |item, acc: &mut Acc| {
+                let (fi, site) = items[item as usize];
+                AFTER_REFUSED_READD.with(|c| c.set(true));
+                for pad in READD_PADS {
+                    run_fault(&faults[fi], site, pad, &ctx, acc);
+                }
+                AFTER_REFUSED_READD.with(|c| c.set(false));
+                let (v, p, n) = READD_STATS.with(|c| c.replace((0, 0, 0)));
+                acc.count("readd-refused-at-validation", v);
+                acc.count("readd-refused-by-parser", p);
+                acc.count("readd-not-refused", n);
+            },
+        );
+        if run.is_supervisor() {
+            let (v, p, n) = (run.counter("readd-refused-at-validation"), run.counter("readd-refused-by-parser"), run.counter("readd-not-refused"));
+            run.guard(
+                "readd-refused-at-validation",
+                v > 0 && p == 0 && n == 0,
+                format!("{v} re-registrations refused after parsing and compiling (the unknown filter), {p} by the parser, {n} not refused"),
+            );
+        }
     }
 
     // ------------------------------------------------ single-token deletions
